@@ -321,6 +321,11 @@ func vpRefParseRequest(b []byte, off int) *vpRefMsg {
 			m.Complete = true
 		case "incomplete":
 		default:
+			if strings.HasPrefix(status, "undefined:") {
+				m.Unknown = true
+				m.why(status)
+				break
+			}
 			m.MustBeLast = true
 			m.why("malformed chunked body: " + status)
 		}
@@ -439,11 +444,22 @@ func vpRefDechunk(b []byte, off int) (body []byte, end int, trailers [][2]string
 			}
 			continue // obs-fold of a trailer value
 		}
+		// judged like a field line of the head: a line without colon or with an empty name leaves the
+		// framing undefined (a recipient may reject it or skip it); a name that is not a token does not
+		// by itself - unless it is a framing field name wrapped in junk - since the line structure, and
+		// with it the end of the message, stays unambiguous
 		c := bytes.IndexByte(line, ':')
-		if c <= 0 || !vpRefIsToken(string(line[:c])) {
-			return body, len(b), nil, "malformed trailer field line"
+		if c <= 0 {
+			return body, len(b), nil, "undefined: trailer line without colon / with empty name"
 		}
-		trailers = append(trailers, [2]string{string(line[:c]), vpRefTrimOWS(string(line[c+1:]))})
+		name := strings.TrimRight(string(line[:c]), " \t")
+		if !vpRefIsToken(name) {
+			stripped := strings.ToLower(strings.TrimFunc(name, func(r rune) bool { return r <= ' ' || r >= 0x7f }))
+			if stripped == "content-length" || stripped == "transfer-encoding" || name == "" {
+				return body, len(b), nil, "malformed trailer field line"
+			}
+		}
+		trailers = append(trailers, [2]string{name, vpRefTrimOWS(string(line[c+1:]))})
 	}
 }
 
